@@ -21,7 +21,7 @@ from __future__ import annotations
 import copy
 from typing import Any
 
-from detsim import env, gen, monitors, rng
+from detsim import env, gen, minimize, monitors, rng
 from detsim.observe import all_events, exc_token, us
 from detsim.runner import Discard
 from detsim.sched import HarnessError, Scheduler
@@ -367,5 +367,4 @@ def shrink(plan: dict[str, Any]):
         if n > 1:
             for i in range(n):
                 yield {**plan, "clients": clients[:ci] + [ops[:i] + ops[i + 1:]] + clients[ci + 1:]}
-    if plan["schedule"].get("mode") != "sequential":
-        yield {**plan, "schedule": {"mode": "sequential", "seed": 0, "p_boundary": 0.0}}
+    yield from minimize.shrink_schedule(plan)
